@@ -66,6 +66,7 @@ type PgWorld struct {
 	Poison   *poison.CallbackStorage
 	Panics   []string
 	Stacks   []string
+	runRef   *SessionRunRef
 	chunkMod int // 0: whole, 1: small chunks, 2: byte by byte
 	maxSteps int
 }
@@ -190,6 +191,9 @@ func (pw *PgWorld) RunSession(clientID string, script []Stmt) *SessionRun {
 	pdEnd, dEnd := NewConnPair("proxy-d", "db")
 	run := &SessionRun{ToDB: pdEnd.wr, FromDB: dEnd.wr, ToClient: pcEnd.wr, FromCl: cEnd.wr}
 	run.Results = make([]StmtResult, len(script))
+	if pw.runRef != nil {
+		pw.runRef.toClient = run.ToClient
+	}
 	done := make(chan struct{}, 8)
 	finished := 0
 	const actors = 3
